@@ -440,7 +440,7 @@ PROPS = {
                 'left-over/look-alike), 20% Shards (shuffled pod lists of 0-12 pods, missing IPs, holes; half of them with same-labelled, same-named pods of another namespace and a manager over all namespaces), 20% Replicas (rolling / not-ready sets; half of them HISTORIES of 2-5 calls on one manager with 0 / 1 / 30 / 119 / 120 / 121 / 600 s passing between calls - hook VerifAge - and every set changing between ready, not ready and updating); '
                 'non-trivial = scale actually changed, or >=2 pods, or >=1 rolling set; distinct by input',
         'theorems': 'C18_scale_exact C18_scale_noop C18_deleted_exactly C18_nothing_created C18_survivors_kept C18_names C18_order '
-                    'C18_shard_fields C18_rolling C18_rolling_always C18_first_call_is_history (+ C18_rolling_always_example)',
+                    'C18_shard_fields C18_rolling C18_rolling_always C18_first_call_is_history C18_not_ready_is_waited_for C18_updating_is_skipped_and_forgotten (+ C18_rolling_always_example)',
         'level_text': 'Proof: nine theorems about the Gallina model of ChangeScale/Shards/Replicas, for every replica pair, template list, '
                       'claim set, pod order (unbounded), closed under the global context; the model is tied to the Go code by running both '
                       'on generated cluster states (fake clientset) on every run.',
